@@ -297,6 +297,27 @@ func c19checkDate(c *core.Ctx, cd avro.Codec, d int64) {
 	}
 }
 
+// c19dateEdges: instants within nanoseconds of UTC midnight, on days across the whole range, written as dates.
+func c19dateEdges(c *core.Ctx, cd avro.Codec, r *rand.Rand, n int) {
+	for k := 0; k < n; k++ {
+		day := int64(r.IntN(2*106000)) - 106000 // days whose instants fit int64 nanoseconds
+		for _, dn := range []int64{-1, -2, -50, -100, -119, -120, -200, -500, -999, -1000, -1001, 0, 1, 999} {
+			t := time.Unix(day*86400, 0).Add(time.Duration(dn)).UTC()
+			want := day
+			if dn < 0 {
+				want = day - 1
+			}
+			got, err := c19encode(cd, t)
+			c.Eval(1)
+			c.Count("date.midnight-edges", 1)
+			if err != nil || got != want {
+				c.Violate("date-encode", fmt.Sprintf("time %s written as a date stores day %d (err=%v), the day that contains it is %d", t.Format(time.RFC3339Nano), got, err, want), nil)
+				return
+			}
+		}
+	}
+}
+
 func c19checkLong(c *core.Ctx, cc c19codec, v int64) {
 	// only instants representable in int64 nanoseconds
 	if v > math.MaxInt64/cc.mult || v < math.MinInt64/cc.mult {
@@ -400,6 +421,7 @@ func runC19(c *core.Ctx, i int) {
 		for k := 0; k < 3000; k++ {
 			c19checkPositions(c, r)
 		}
+		c19dateEdges(c, dateC, r, 2000)
 		for _, cc := range c19codecs[1:] {
 			if i == nDateChunks {
 				for _, b := range varintBoundaries() {
